@@ -5,6 +5,7 @@ import (
 	"lunar/toolkit-core/clock"
 	"lunar/toolkit-core/logging"
 	"lunar/toolkit-core/verifhook"
+	"strconv"
 	"sync"
 	"time"
 )
@@ -80,7 +81,7 @@ func (dpq *DelayedPriorityQueue) Enqueue(
 		Msgf("Sending request to be processed in queue")
 	heap.Push(&dpq.queue, req)
 	dpq.requestCounts[req.priority]++
-	verifhook.Event("dpq.queued", req.ID, req.timestamp.Format(time.RFC3339Nano))
+	verifhook.Event("dpq.queued", req.ID, strconv.FormatInt(req.timestamp.UnixNano(), 10))
 
 	dpq.mutex.Unlock()
 
